@@ -508,8 +508,20 @@ func (e *Engine) builtin(st *State, fr *Frame, call ssa.CallInstruction, val ssa
 	case "cap":
 		set(Cap(args[0]))
 	case "append":
-		st.shiftSite(site)
+		if sub := st.shiftSiteSub(site); sub != nil {
+			na := make([]*Term, len(args))
+			for i, a := range args {
+				na[i] = a.Map(sub)
+			}
+			args = na
+		}
 		r := Make(site, 0, nil, nil)
+		// appending at least one element yields a non-empty slice
+		if len(args) == 2 && (args[1].K != KNil) {
+			if n := len(e.sliceElems(st, args[1])); n >= 1 && !(n == 1 && e.sliceElems(st, args[1])[0].K == KUnknown) {
+				st.facts.bnd[Len(r)] = bound{lo: int64(n), hasLo: true}
+			}
+		}
 		ev := &Event{Kind: "append", Instr: call, Fn: fr.fn, Depth: fr.depth, Pos: e.Pos(call), Site: site, Args: args, Results: []*Term{r}}
 		set(r)
 		e.deliver(st, ev)
